@@ -2104,6 +2104,29 @@ pub fn iter_next(ip: Rc<Interp>, it: &Rc<IterObj>) -> Pin<Box<dyn Future<Output 
                 }
             };
         }
+        let adapt_parts = {
+            let st = it.state.borrow();
+            match &*st {
+                IterState::Adapt(src, f, kind) => Some((src.clone(), f.clone(), *kind)),
+                _ => None,
+            }
+        };
+        if let Some((src, f, kind)) = adapt_parts {
+            loop {
+                let Some(item) = iter_next(ip.clone(), &src).await? else {
+                    return Ok(None);
+                };
+                let r = call_value(ip.clone(), f.clone(), vec![item.clone()], None).await?;
+                match kind {
+                    0 => return Ok(Some(r)),
+                    _ => match r {
+                        V::Bool(true) => return Ok(Some(item)),
+                        V::Bool(false) => continue,
+                        _ => return Err(Ctl::Err("keep: predicate must return a Bool".into())),
+                    },
+                }
+            }
+        }
         let mut st = it.state.borrow_mut();
         Ok(match &mut *st {
             IterState::List(l, i) => {
@@ -2166,7 +2189,7 @@ pub fn iter_next(ip: Rc<Interp>, it: &Rc<IterObj>) -> Pin<Box<dyn Future<Output 
                     None
                 }
             }
-            IterState::Gen(_) => unreachable!(),
+            IterState::Gen(_) | IterState::Adapt(..) => unreachable!(),
             IterState::Done => None,
         })
     })
